@@ -9,14 +9,332 @@ Inductive forest_has : list tree -> bytes -> tokid -> Prop :=
 | fh_deep : forall cs b tok ch w k,
     In (T b tok ch) cs -> w <> [] -> forest_has ch w k -> forest_has cs (b :: w) k.
 
+(* ---------- induction principle for the nested inductive `tree` ---------- *)
+Section TreeInd.
+  Variable P : tree -> Prop.
+  Hypothesis HT : forall b tok cs, Forall P cs -> P (T b tok cs).
+  Fixpoint tree_ind' (t : tree) : P t :=
+    match t with
+    | T b tok cs =>
+        HT b tok cs
+           ((fix go (cs : list tree) : Forall P cs :=
+               match cs with
+               | [] => Forall_nil P
+               | c :: cs' => Forall_cons c (tree_ind' c) (go cs')
+               end) cs)
+    end.
+End TreeInd.
+
+(* ---------- algebra of forest_has ---------------------------------------- *)
+Lemma forest_has_nil : forall w k, ~ forest_has [] w k.
+Proof.
+  intros w k H.
+  inversion H as [cs0 b k0 ch Hi | cs0 b tok ch w0 k0 Hi Hne Hd]; subst; destruct Hi.
+Qed.
+
+Lemma forest_has_ne : forall cs w k, forest_has cs w k -> w <> [].
+Proof. intros cs w k H. destruct H; discriminate. Qed.
+
+Lemma forest_has_incl : forall cs cs' w k,
+  (forall c, In c cs -> In c cs') -> forest_has cs w k -> forest_has cs' w k.
+Proof.
+  intros cs cs' w k Hin H.
+  inversion H as [cs0 b k0 ch Hi | cs0 b tok ch w0 k0 Hi Hne Hd]; subst.
+  - apply fh_here with ch. apply Hin. exact Hi.
+  - apply fh_deep with tok ch; auto.
+Qed.
+
+Lemma forest_has_cons : forall c cs w k,
+  forest_has (c :: cs) w k <-> forest_has [c] w k \/ forest_has cs w k.
+Proof.
+  intros c cs w k. split.
+  - intros H.
+    inversion H as [cs0 b k0 ch Hi | cs0 b tok ch w0 k0 Hi Hne Hd]; subst.
+    + destruct Hi as [Hi|Hi].
+      * left. apply fh_here with ch. left. exact Hi.
+      * right. apply fh_here with ch. exact Hi.
+    + destruct Hi as [Hi|Hi].
+      * left. apply fh_deep with tok ch; auto. left. exact Hi.
+      * right. apply fh_deep with tok ch; auto.
+  - intros [H|H].
+    + apply forest_has_incl with [c]; [|exact H].
+      intros c0 [Hc0|[]]. left. exact Hc0.
+    + apply forest_has_incl with cs; [|exact H].
+      intros c0 Hc0. right. exact Hc0.
+Qed.
+
+Lemma forest_has_single : forall b tok ch w k,
+  forest_has [T b tok ch] w k <->
+  (w = [b] /\ tok = Some k) \/
+  (exists w', w = b :: w' /\ w' <> [] /\ forest_has ch w' k).
+Proof.
+  intros b tok ch w k. split.
+  - intros H.
+    inversion H as [cs0 b0 k0 ch0 Hi | cs0 b0 tok0 ch0 w0 k0 Hi Hne Hd]; subst.
+    + destruct Hi as [Hi|[]]. inversion Hi; subst. left. split; reflexivity.
+    + destruct Hi as [Hi|[]]. inversion Hi; subst. right. exists w0. auto.
+  - intros [[Hw Ht] | [w' [Hw [Hne Hd]]]]; subst.
+    + apply fh_here with ch. left. reflexivity.
+    + apply fh_deep with tok ch; auto. left. reflexivity.
+Qed.
+
+(* ---------- serialisation ------------------------------------------------- *)
+Lemma ser_eq : forall t par,
+  ser t par =
+  mk_node (tree_byte t) (tree_tok t) (1 + lenN (ser_forest (tree_children t) par))
+          (if par =? 0 then 1 else par)
+    :: ser_forest (tree_children t) par.
+Proof.
+  intros [b tok cs] par. cbn [ser tree_byte tree_tok tree_children].
+  assert (E : (fix serc (cs : list tree) : list node :=
+                 match cs with
+                 | [] => []
+                 | c :: cs' => ser c (match cs' with [] => par + 1 | _ => 1 end) ++ serc cs'
+                 end) cs = ser_forest cs par).
+  { induction cs as [|c cs' IH]; [reflexivity|]. cbn [ser_forest]. rewrite IH. reflexivity. }
+  rewrite E. reflexivity.
+Qed.
+
+Lemma ser_forest_cons : forall c cs par,
+  ser_forest (c :: cs) par =
+  ser c (match cs with [] => par + 1 | _ => 1 end) ++ ser_forest cs par.
+Proof. reflexivity. Qed.
+
+Lemma ser_forest_ne : forall cs par, cs <> [] -> ser_forest cs par <> [].
+Proof.
+  intros [|c cs] par Hne; [congruence|].
+  rewrite ser_forest_cons, ser_eq. discriminate.
+Qed.
+
 (*FIXED*)
 Lemma subtree_body_root : forall t,
   subtree_body (ser t 0) 0 = ser_forest (tree_children t) 0.
-Proof. Admitted.
+Proof.
+  intros t. unfold subtree_body. rewrite ser_eq.
+  unfold nthN. change (N.to_nat 0) with 0%nat. cbn [nth_error nsub Nat.add skipn].
+  replace (N.to_nat (1 + lenN (ser_forest (tree_children t) 0) - 1))
+    with (length (ser_forest (tree_children t) 0)) by (unfold lenN; lia).
+  apply firstn_all.
+Qed.
 
 Section WalkProofs.
   Variable St : Type.
   Variable push : St -> byte -> option St.
+
+  Lemma walk_skip : forall defl l1 rest np stk toks vis,
+    walk St push defl (l1 ++ rest) (length l1) np stk toks vis =
+    walk St push defl rest 0 np stk toks vis.
+  Proof.
+    intros defl l1. induction l1 as [|a l1 IH]; intros rest np stk toks vis; [reflexivity|].
+    cbn [app length walk]. apply IH.
+  Qed.
+
+  Lemma pop_chk_ok : forall n (stk : list St),
+    (n < length stk)%nat -> pop_chk St n stk = Some (skipn n stk).
+  Proof.
+    intros n stk Hlt. unfold pop_chk.
+    destruct (Nat.ltb_spec n (length stk)); [reflexivity|lia].
+  Qed.
+
+  Lemma skipn_pred : forall A (x : A) l n,
+    (1 <= n)%nat -> skipn n (x :: l) = skipn (n - 1) l.
+  Proof.
+    intros A x l n Hn. destruct n as [|n]; [lia|].
+    cbn [skipn]. replace (S n - 1)%nat with n by lia. reflexivity.
+  Qed.
+
+  (* toks' extends toks by exactly the ids in Q (ignoring the fake slot) *)
+  Definition ext (defl : tokid) (toks toks' : svob) (Q : tokid -> Prop) : Prop :=
+    vsize toks' = vsize toks /\ nwords toks' = nwords toks /\
+    forall k, k <> defl -> (get toks' k = true <-> get toks k = true \/ Q k).
+
+  Lemma ext_refl : forall defl toks (Q : tokid -> Prop),
+    (forall k, k <> defl -> ~ Q k) -> ext defl toks toks Q.
+  Proof.
+    intros defl toks Q HQ. split; [reflexivity|]. split; [reflexivity|].
+    intros k Hk. split; [auto|]. intros [H|H]; [exact H|]. exfalso. exact (HQ k Hk H).
+  Qed.
+
+  Lemma ext_trans : forall defl toks toks1 toks2 (Q1 Q2 Q : tokid -> Prop),
+    ext defl toks toks1 Q1 -> ext defl toks1 toks2 Q2 ->
+    (forall k, k <> defl -> (Q k <-> Q1 k \/ Q2 k)) -> ext defl toks toks2 Q.
+  Proof.
+    intros defl toks toks1 toks2 Q1 Q2 Q (Hv1 & Hn1 & H1) (Hv2 & Hn2 & H2) HQ.
+    split; [congruence|]. split; [congruence|].
+    intros k Hk. rewrite (H2 k Hk), (H1 k Hk), (HQ k Hk). tauto.
+  Qed.
+
+  Lemma ext_set : forall defl toks k0,
+    get_pre toks k0 = true -> ext defl toks (allow_token toks k0) (fun k => k = k0).
+  Proof.
+    intros defl toks k0 Hpre. unfold allow_token.
+    split; [apply vsize_set|]. split; [apply nwords_set|].
+    intros k Hk. rewrite get_set by exact Hpre.
+    destruct (N.eqb_spec k k0) as [E|E].
+    - split; auto.
+    - split; [auto|]. intros [H|H]; [exact H|contradiction].
+  Qed.
+
+  Lemma get_pre_mono : forall toks k d,
+    k <= d -> get_pre toks d = true -> get_pre toks k = true.
+  Proof.
+    intros toks k d Hle Hd. unfold get_pre in *.
+    apply N.ltb_lt in Hd. apply N.ltb_lt.
+    eapply N.le_lt_trans; [|exact Hd]. apply N.div_le_mono; lia.
+  Qed.
+
+  Lemma get_pre_ext : forall toks toks' d,
+    nwords toks' = nwords toks -> get_pre toks' d = get_pre toks d.
+  Proof. intros toks toks' d E. unfold get_pre. rewrite E. reflexivity. Qed.
+
+  (* ids on accepted paths of a forest, from state s *)
+  Definition accS (cs : list tree) (s : St) (k : tokid) : Prop :=
+    exists w, forest_has cs w k /\ run St push s w <> None.
+
+  Lemma accS_nil : forall s k, ~ accS [] s k.
+  Proof. intros s k (w & Hf & _). exact (forest_has_nil _ _ Hf). Qed.
+
+  Lemma accS_cons : forall c cs s k, accS (c :: cs) s k <-> accS [c] s k \/ accS cs s k.
+  Proof.
+    intros c cs s k. unfold accS. split.
+    - intros (w & Hf & Hr). apply forest_has_cons in Hf. destruct Hf as [Hf|Hf]; [left|right]; eauto.
+    - intros [(w & Hf & Hr)|(w & Hf & Hr)]; exists w; (split; [|exact Hr]);
+        apply forest_has_cons; [left|right]; exact Hf.
+  Qed.
+
+  Lemma accS_single_fail : forall b tok cs sp k,
+    push sp b = None -> ~ accS [T b tok cs] sp k.
+  Proof.
+    intros b tok cs sp k Hp (w & Hf & Hr). apply forest_has_single in Hf.
+    destruct Hf as [[Hw _] | (w' & Hw & _)]; subst w; cbn [run] in Hr; rewrite Hp in Hr;
+      apply Hr; reflexivity.
+  Qed.
+
+  Lemma accS_single_ok : forall b tok cs sp s' k,
+    push sp b = Some s' ->
+    (accS [T b tok cs] sp k <-> tok = Some k \/ accS cs s' k).
+  Proof.
+    intros b tok cs sp s' k Hp. split.
+    - intros (w & Hf & Hr). apply forest_has_single in Hf.
+      destruct Hf as [[Hw Ht] | (w' & Hw & Hne & Hd)]; subst w.
+      + left. exact Ht.
+      + right. exists w'. split; [exact Hd|]. cbn [run] in Hr. rewrite Hp in Hr. exact Hr.
+    - intros [Ht | (w & Hf & Hr)].
+      + exists [b]. split.
+        * apply forest_has_single. left. split; [reflexivity|exact Ht].
+        * cbn [run]. rewrite Hp. discriminate.
+      + exists (b :: w). split.
+        * apply forest_has_single. right. exists w. split; [reflexivity|].
+          split; [exact (forest_has_ne _ _ _ Hf)|exact Hf].
+        * cbn [run]. rewrite Hp. exact Hr.
+  Qed.
+
+  (* walking one serialised tree whose stored parent count is par >= 1 *)
+  Definition treeP (defl : tokid) (t : tree) : Prop :=
+    forall par rest np stk toks vis sp base,
+      1 <= par ->
+      (forall w k, forest_has [t] w k -> k < defl) ->
+      get_pre toks defl = true ->
+      pop_chk St np stk = Some (sp :: base) ->
+      (N.to_nat par - 1 <= length base)%nat ->
+      exists np' stk' toks' vis',
+        walk St push defl (ser t par ++ rest) 0 np stk toks vis =
+        walk St push defl rest 0 np' stk' toks' vis' /\
+        pop_chk St np' stk' = Some (skipn (N.to_nat par - 1) (sp :: base)) /\
+        ext defl toks toks' (accS [t] sp).
+
+  Definition forestP (defl : tokid) (cs : list tree) : Prop :=
+    forall par rest np stk toks vis s base,
+      (forall w k, forest_has cs w k -> k < defl) ->
+      get_pre toks defl = true ->
+      pop_chk St np stk = Some (s :: base) ->
+      (N.to_nat par <= length base)%nat ->
+      exists np' stk' toks' vis',
+        walk St push defl (ser_forest cs par ++ rest) 0 np stk toks vis =
+        walk St push defl rest 0 np' stk' toks' vis' /\
+        pop_chk St np' stk' = Some (skipn (N.to_nat par) (s :: base)) /\
+        ext defl toks toks' (accS cs s).
+
+  Lemma forest_walk : forall defl cs,
+    Forall (treeP defl) cs -> cs <> [] -> forestP defl cs.
+  Proof.
+    intros defl cs HF. induction HF as [|c cs' Hc HF IH]; intros Hne; [congruence|].
+    intros par rest np stk toks vis s base Hlt Hpre Hpop Hlen.
+    rewrite ser_forest_cons. destruct cs' as [|c2 cs''].
+    - cbn [ser_forest]. rewrite app_nil_r.
+      destruct (Hc (par + 1) rest np stk toks vis s base)
+        as (np' & stk' & toks' & vis' & Hw & Hp' & He); try assumption; try lia.
+      replace (N.to_nat (par + 1) - 1)%nat with (N.to_nat par) in Hp' by lia.
+      exists np', stk', toks', vis'. split; [exact Hw|]. split; [exact Hp'|exact He].
+    - rewrite <- app_assoc.
+      destruct (Hc 1 (ser_forest (c2 :: cs'') par ++ rest) np stk toks vis s base)
+        as (np1 & stk1 & toks1 & vis1 & Hw1 & Hp1 & He1); try assumption; try lia.
+      { intros w k Hf. apply (Hlt w k). apply forest_has_cons. left. exact Hf. }
+      change (N.to_nat 1 - 1)%nat with 0%nat in Hp1. cbn [skipn] in Hp1.
+      assert (Hne2 : c2 :: cs'' <> []) by discriminate.
+      destruct (IH Hne2 par rest np1 stk1 toks1 vis1 s base)
+        as (np2 & stk2 & toks2 & vis2 & Hw2 & Hp2 & He2); try assumption.
+      { intros w k Hf. apply (Hlt w k). apply forest_has_cons. right. exact Hf. }
+      { rewrite (get_pre_ext toks toks1); [exact Hpre|]. destruct He1 as (_ & Hn & _). exact Hn. }
+      exists np2, stk2, toks2, vis2. split; [rewrite Hw1; exact Hw2|]. split; [exact Hp2|].
+      eapply ext_trans; [exact He1|exact He2|].
+      intros k _. apply accS_cons.
+  Qed.
+
+  Lemma tree_walk : forall defl t, treeP defl t.
+  Proof.
+    intros defl. apply tree_ind'. intros b tok cs IH.
+    unfold treeP. intros par rest np stk toks vis sp base Hpar Hlt Hpre Hpop Hlen.
+    rewrite ser_eq. cbn [tree_byte tree_tok tree_children app].
+    cbn [walk]. rewrite Hpop. cbn [try_push nbyte ntok nsub npar].
+    assert (Hparnz : (if par =? 0 then 1 else par) = par).
+    { destruct (N.eqb_spec par 0); [lia|reflexivity]. }
+    rewrite Hparnz.
+    destruct (push sp b) as [s'|] eqn:Hp.
+    - set (tk := match tok with Some t => t | None => defl end).
+      assert (Htk : get_pre toks tk = true).
+      { apply get_pre_mono with defl; [|exact Hpre]. subst tk. destruct tok as [t|]; [|lia].
+        apply N.lt_le_incl. apply (Hlt [b] t). apply fh_here with cs. left. reflexivity. }
+      assert (Htkiff : forall k, k <> defl ->
+                (accS [T b tok cs] sp k <-> k = tk \/ accS cs s' k)).
+      { intros k Hk. rewrite (accS_single_ok b tok cs sp s' k Hp). subst tk.
+        destruct tok as [t|].
+        - split; (intros [H|H]; [left|right; exact H]); congruence.
+        - split; (intros [H|H]; [|right; exact H]); congruence. }
+      destruct cs as [|c cs'].
+      + cbn [ser_forest app]. change (1 + lenN (@nil node) =? 1) with true. cbv iota.
+        exists (N.to_nat par), (s' :: sp :: base), (allow_token toks tk), (vis + 1).
+        split; [reflexivity|]. split.
+        * rewrite pop_chk_ok by (cbn [length]; lia). f_equal. apply skipn_pred. lia.
+        * eapply ext_trans; [apply ext_set; exact Htk| |exact Htkiff].
+          apply ext_refl. intros k _. apply accS_nil.
+      + assert (Hne : c :: cs' <> []) by discriminate.
+        assert (Hsub : (1 + lenN (ser_forest (c :: cs') par) =? 1) = false).
+        { pose proof (ser_forest_ne (c :: cs') par Hne) as Hl.
+          destruct (ser_forest (c :: cs') par) as [|n l]; [congruence|].
+          apply N.eqb_neq. unfold lenN. cbn [length]. lia. }
+        rewrite Hsub.
+        destruct (forest_walk defl (c :: cs') IH Hne par rest 0%nat (s' :: sp :: base)
+                              (allow_token toks tk) (vis + 1) s' (sp :: base))
+          as (np' & stk' & toks' & vis' & Hw & Hp' & He).
+        { intros w k Hf. apply (Hlt (b :: w) k). apply fh_deep with tok (c :: cs').
+          - left. reflexivity.
+          - exact (forest_has_ne _ _ _ Hf).
+          - exact Hf. }
+        { unfold allow_token. rewrite (get_pre_ext toks); [exact Hpre|apply nwords_set]. }
+        { reflexivity. }
+        { cbn [length]. lia. }
+        exists np', stk', toks', vis'. split; [exact Hw|]. split.
+        * rewrite Hp'. f_equal. apply skipn_pred. lia.
+        * eapply ext_trans; [apply ext_set; exact Htk|exact He|exact Htkiff].
+    - replace (N.to_nat (1 + lenN (ser_forest cs par) - 1))
+        with (length (ser_forest cs par)) by (unfold lenN; lia).
+      rewrite walk_skip.
+      exists (N.to_nat (par - 1)), (sp :: base), toks, (vis + 1).
+      split; [reflexivity|]. split.
+      + rewrite pop_chk_ok by (cbn [length]; lia). f_equal. f_equal. lia.
+      + apply ext_refl. intros k _. apply accS_single_fail. exact Hp.
+  Qed.
 
   (*FIXED*) (* the DFS over the serialized forest of a root: the stack is
      restored, and exactly the tokens on accepted paths are added (plus
@@ -31,18 +349,223 @@ Section WalkProofs.
       (forall t, t <> defl ->
          (get toks' t = true <->
           get toks t = true \/ exists w, forest_has cs w t /\ run St push s w <> None)).
-  Proof. Admitted.
+  Proof.
+    intros cs s stk0 toks defl Hlt Hpre.
+    destruct cs as [|c cs'].
+    - exists 0%nat, (s :: stk0), toks, 0. cbn [ser_forest walk].
+      split; [reflexivity|]. split; [reflexivity|]. split; [reflexivity|]. split; [reflexivity|].
+      intros t Ht. split; [auto|]. intros [H|(w & Hf & _)]; [exact H|].
+      exfalso. exact (forest_has_nil _ _ Hf).
+    - assert (Hne : c :: cs' <> []) by discriminate.
+      assert (HF : Forall (treeP defl) (c :: cs')).
+      { apply Forall_forall. intros x _. apply tree_walk. }
+      destruct (forest_walk defl (c :: cs') HF Hne 0 [] 0%nat (s :: stk0) toks 0 s stk0)
+        as (np' & stk' & toks' & vis' & Hw & Hp' & (Hv & Hn & Hg)).
+      { exact Hlt. }
+      { exact Hpre. }
+      { reflexivity. }
+      { change (N.to_nat 0) with 0%nat. lia. }
+      rewrite app_nil_r in Hw. cbn [walk] in Hw.
+      change (N.to_nat 0) with 0%nat in Hp'. cbn [skipn] in Hp'.
+      exists np', stk', toks', vis'.
+      split; [exact Hw|]. split; [exact Hp'|]. split; [exact Hv|]. split; [exact Hn|].
+      exact Hg.
+  Qed.
 End WalkProofs.
+
+(* ---------- the builder --------------------------------------------------- *)
+Lemma forest_has_new_chain : forall rest b k w' k',
+  forest_has [new_chain rest b k] w' k' <-> (w' = b :: rest /\ k' = k).
+Proof.
+  intros rest. induction rest as [|b' r IH]; intros b k w' k'; cbn [new_chain];
+    rewrite forest_has_single.
+  - split.
+    + intros [[Hw Hk] | (w'' & _ & _ & Hd)].
+      * split; [exact Hw|congruence].
+      * exfalso. exact (forest_has_nil _ _ Hd).
+    + intros [Hw Hk]. left. split; [exact Hw|congruence].
+  - split.
+    + intros [[_ Hk] | (w'' & Hw & _ & Hd)]; [discriminate|].
+      apply IH in Hd. destruct Hd as [Hw'' Hk]. subst. split; reflexivity.
+    + intros [Hw Hk]. right. exists (b' :: r). split; [exact Hw|]. split; [discriminate|].
+      apply IH. split; [reflexivity|exact Hk].
+Qed.
+
+Lemma ins_spec : forall w k cs w' k', w <> [] ->
+  (forest_has (ins w k cs) w' k' <-> forest_has cs w' k' \/ (w' = w /\ k' = k)).
+Proof.
+  intros w. induction w as [|b rest IH]; intros k cs w' k' Hne; [congruence|].
+  cbn [ins].
+  induction cs as [|[cb ctok cch] cs' IHcs].
+  - rewrite forest_has_new_chain. split; [auto|].
+    intros [H|H]; [exfalso; exact (forest_has_nil _ _ H)|exact H].
+  - destruct ((cb =? b) && negb (match rest with [] => true | _ :: _ => false end && is_some ctok))
+      eqn:Hc.
+    + apply andb_prop in Hc. destruct Hc as [Hcb Hc]. apply N.eqb_eq in Hcb. subst cb.
+      rewrite forest_has_cons, (forest_has_cons (T b ctok cch) cs').
+      destruct rest as [|b2 r].
+      * (* last byte: the child had no token *)
+        destruct ctok as [t|]; [discriminate Hc|].
+        rewrite !forest_has_single. split.
+        -- intros [[[Hw Hk] | Hd] | H].
+           ++ right. split; [exact Hw|congruence].
+           ++ left. left. right. exact Hd.
+           ++ left. right. exact H.
+        -- intros [[[[_ Hk] | Hd] | H] | [Hw Hk]].
+           ++ discriminate Hk.
+           ++ left. right. exact Hd.
+           ++ right. exact H.
+           ++ left. left. split; [exact Hw|congruence].
+      * (* inner byte: descend *)
+        rewrite !forest_has_single. split.
+        -- intros [[Hh | (w'' & Hw & Hne'' & Hd)] | H].
+           ++ left. left. left. exact Hh.
+           ++ apply IH in Hd; [|discriminate]. destruct Hd as [Hd | [Hw'' Hk]].
+              ** left. left. right. exists w''. auto.
+              ** right. subst. split; reflexivity.
+           ++ left. right. exact H.
+        -- intros [[[Hh | (w'' & Hw & Hne'' & Hd)] | H] | [Hw Hk]].
+           ++ left. left. exact Hh.
+           ++ left. right. exists w''. split; [exact Hw|]. split; [exact Hne''|].
+              apply IH; [discriminate|]. left. exact Hd.
+           ++ right. exact H.
+           ++ left. right. exists (b2 :: r). split; [exact Hw|]. split; [discriminate|].
+              apply IH; [discriminate|]. right. split; [reflexivity|exact Hk].
+    + rewrite forest_has_cons, IHcs, (forest_has_cons (T cb ctok cch) cs'). tauto.
+Qed.
+
+Lemma tree_children_insert : forall t w k,
+  tree_children (insert t w k) = ins w k (tree_children t).
+Proof. intros [b tok cs] w k. reflexivity. Qed.
+
+Lemma build_fold : forall (sorted : list (tokid * bytes)) t0 w k,
+  forest_has (tree_children
+    (fold_left (fun t '(i, w) => match w with [] => t | _ => insert t w i end) sorted t0)) w k
+  <-> forest_has (tree_children t0) w k \/ (In (k, w) sorted /\ w <> []).
+Proof.
+  intros sorted. induction sorted as [|[i wi] sorted IH]; intros t0 w k.
+  - cbn [fold_left In]. tauto.
+  - cbn [fold_left]. rewrite IH. cbn [In]. destruct wi as [|x wi].
+    + split.
+      * intros [H | [H Hne]]; [left; exact H|right; auto].
+      * intros [H | [[H | H] Hne]]; [left; exact H| |right; auto].
+        inversion H; subst. congruence.
+    + rewrite tree_children_insert, ins_spec by discriminate. split.
+      * intros [[H | [Hw Hk]] | [H Hne]].
+        -- left. exact H.
+        -- right. subst. split; [left; reflexivity|discriminate].
+        -- right. auto.
+      * intros [H | [[H | H] Hne]].
+        -- left. left. exact H.
+        -- inversion H; subst. left. right. split; reflexivity.
+        -- right. auto.
+Qed.
+
+Lemma in_insert_sorted : forall x y l, In x (insert_sorted y l) <-> y = x \/ In x l.
+Proof.
+  intros x y l. induction l as [|z l IH]; cbn [insert_sorted].
+  - reflexivity.
+  - destruct (bytes_leb (snd y) (snd z)).
+    + reflexivity.
+    + cbn [In]. rewrite IH. tauto.
+Qed.
+
+Lemma in_sort_vocab : forall x l, In x (sort_vocab l) <-> In x l.
+Proof.
+  intros x l. unfold sort_vocab. induction l as [|y l IH]; cbn [fold_right].
+  - reflexivity.
+  - rewrite in_insert_sorted, IH. reflexivity.
+Qed.
+
+Lemma in_number_gen : forall A (ws : list A) a k w,
+  In (k, w) (combine (seqN a (length ws)) ws) <-> a <= k /\ nthN ws (k - a) = Some w.
+Proof.
+  intros A ws. induction ws as [|x ws IH]; intros a k w.
+  - cbn [length seqN combine In]. split; [tauto|]. intros [_ H]. unfold nthN in H.
+    destruct (N.to_nat (k - a)); discriminate.
+  - cbn [length seqN combine In]. rewrite IH. unfold nthN. split.
+    + intros [E | [Hle Hn]].
+      * inversion E; subst. split; [lia|]. rewrite N.sub_diag. reflexivity.
+      * split; [lia|].
+        replace (N.to_nat (k - a)) with (S (N.to_nat (k - (a + 1)))) by lia. exact Hn.
+    + intros [Hle Hn]. destruct (N.eq_dec k a) as [E|E].
+      * left. subst k. rewrite N.sub_diag in Hn. cbn [N.to_nat nth_error] in Hn. congruence.
+      * right. split; [lia|].
+        replace (N.to_nat (k - a)) with (S (N.to_nat (k - (a + 1)))) in Hn by lia. exact Hn.
+Qed.
+
+Lemma in_number : forall A (ws : list A) k w, In (k, w) (number ws) <-> nthN ws k = Some w.
+Proof.
+  intros A ws k w. unfold number. rewrite in_number_gen, N.sub_0_r. split.
+  - intros [_ H]. exact H.
+  - intros H. split; [lia|exact H].
+Qed.
+
+Lemma nthN_lt : forall A (ws : list A) k w, nthN ws k = Some w -> k < lenN ws.
+Proof.
+  intros A ws k w H. unfold nthN in H. unfold lenN.
+  assert (Hl : (N.to_nat k < length ws)%nat) by (apply nth_error_Some; congruence).
+  lia.
+Qed.
 
 (*FIXED*) (* the builder stores every non-empty word under its own id, and nothing else *)
 Theorem build_tree_spec : forall (ws : list bytes) w k,
   forest_has (tree_children (build_tree (sort_vocab (number ws)))) w k <->
   (nthN ws k = Some w /\ w <> []).
-Proof. Admitted.
+Proof.
+  intros ws w k. unfold build_tree. rewrite build_fold. cbn [tree_children].
+  rewrite in_sort_vocab, in_number. split.
+  - intros [H | H]; [exfalso; exact (forest_has_nil _ _ H)|exact H].
+  - intros H. right. exact H.
+Qed.
+
+(* bias_spec with an empty start prefix *)
+Lemma bias_spec_nil : forall St (push : St -> byte -> option St) ws s t,
+  bias_spec push ws s [] t = true <->
+  exists w, nthN ws t = Some w /\ w <> [] /\ run St push s w <> None.
+Proof.
+  intros St push ws s t. unfold bias_spec. destruct (nthN ws t) as [w|].
+  - destruct w as [|x w0].
+    + split; [discriminate|]. intros (w & Hw & Hne & _). congruence.
+    + cbn [is_prefix length Nat.eqb negb skipn orb andb].
+      destruct (run St push s (x :: w0)) as [s1|] eqn:Hr; cbn [is_some].
+      * split; [|reflexivity]. intros _. exists (x :: w0).
+        split; [reflexivity|]. split; [discriminate|]. rewrite Hr. discriminate.
+      * split; [discriminate|]. intros (w & Hw & _ & Hrun).
+        inversion Hw; subst. congruence.
+  - split; [discriminate|]. intros (w & Hw & _). discriminate.
+Qed.
 
 Section AddBias.
   Variable St : Type.
   Variable push : St -> byte -> option St.
+
+  Lemma add_bias0_spec : forall ws s stk0 toks,
+    get_pre toks (lenN ws) = true ->
+    exists toks' n,
+      add_bias0 push (trie_from ws) (s :: stk0) toks = Some (s :: stk0, toks', n) /\
+      vsize toks' = vsize toks /\ nwords toks' = nwords toks /\
+      (forall t, t <> lenN ws ->
+         (get toks' t = true <-> get toks t = true \/ bias_spec push ws s [] t = true)).
+  Proof.
+    intros ws s stk0 toks Hpre. unfold add_bias0.
+    change (vocab_size (trie_from ws)) with (lenN ws).
+    change (nodes (trie_from ws)) with (ser (build_tree (sort_vocab (number ws))) 0).
+    rewrite subtree_body_root.
+    destruct (walk_forest_spec St push
+                (tree_children (build_tree (sort_vocab (number ws)))) s stk0 toks (lenN ws))
+      as (np & stk' & toks' & vis & Hw & Hp & Hv & Hn & Hg).
+    { intros w k Hf. apply build_tree_spec in Hf. destruct Hf as [Hnth _].
+      exact (nthN_lt _ _ _ _ Hnth). }
+    { exact Hpre. }
+    rewrite Hw, Hp. exists toks', (vis + 1).
+    split; [reflexivity|]. split; [exact Hv|]. split; [exact Hn|].
+    intros t Ht. rewrite (Hg t Ht), bias_spec_nil. split.
+    - intros [H | (w & Hf & Hr)]; [left; exact H|right].
+      apply build_tree_spec in Hf. destruct Hf as [Hnth Hne]. exists w. auto.
+    - intros [H | (w & Hnth & Hne & Hr)]; [left; exact H|right].
+      exists w. split; [|exact Hr]. apply build_tree_spec. auto.
+  Qed.
 
   (*FIXED*) (* add_bias with an empty start prefix = naive per-token test; stack
      restored (then collapsed by trie_finished); fake slot cleared; no other
@@ -56,13 +579,38 @@ Section AddBias.
       (forall t, t < lenN ws -> get toks' t = get toks t || bias_spec push ws s [] t) /\
       get toks' (lenN ws) = false /\
       (forall t, lenN ws < t -> get toks' t = get toks t).
-  Proof. Admitted.
+  Proof.
+    intros ws s stk0 toks Hpre.
+    destruct (add_bias0_spec ws s stk0 toks Hpre) as (toks' & n & Hab & Hv & Hn & Hg).
+    assert (Hpre' : set_pre toks' (lenN ws) = true).
+    { unfold set_pre, get_pre in *. rewrite Hn. exact Hpre. }
+    unfold add_bias. rewrite Hab.
+    change (vocab_size (trie_from ws)) with (lenN ws).
+    exists (disallow_token toks' (lenN ws)). unfold disallow_token.
+    split; [reflexivity|].
+    split; [rewrite vsize_set; exact Hv|].
+    split; [rewrite nwords_set; exact Hn|].
+    split; [|split].
+    - intros t Ht. rewrite get_set by exact Hpre'.
+      destruct (N.eqb_spec t (lenN ws)) as [E|E]; [lia|].
+      apply eq_true_iff_eq. rewrite (Hg t E), orb_true_iff. reflexivity.
+    - rewrite get_set by exact Hpre'. rewrite N.eqb_refl. reflexivity.
+    - intros t Ht. rewrite get_set by exact Hpre'.
+      destruct (N.eqb_spec t (lenN ws)) as [E|E]; [lia|].
+      apply eq_true_iff_eq. rewrite (Hg t E). split; [|auto].
+      intros [H|H]; [exact H|]. apply bias_spec_nil in H. destruct H as (w & Hnth & _).
+      apply nthN_lt in Hnth. lia.
+  Qed.
 
   (*FIXED*) (* the raw walk restores the recogniser stack exactly *)
   Theorem add_bias0_stack : forall ws s stk0 toks,
     get_pre toks (lenN ws) = true ->
     exists toks' n, add_bias0 push (trie_from ws) (s :: stk0) toks = Some (s :: stk0, toks', n).
-  Proof. Admitted.
+  Proof.
+    intros ws s stk0 toks Hpre.
+    destruct (add_bias0_spec ws s stk0 toks Hpre) as (toks' & n & Hab & _).
+    exists toks', n. exact Hab.
+  Qed.
 End AddBias.
 
 (*FIXED*) (* masks allocated by alloc_token_set never show an id >= vocab *)
@@ -70,9 +618,67 @@ Theorem add_bias_no_excess : forall St (push : St -> byte -> option St) ws s stk
   add_bias St push (trie_from ws) (s :: stk0) (alloc_token_set (trie_from ws)) [] =
     Some (trie_finished St (s :: stk0), toks') ->
   no_excess toks' /\ vsize toks' = lenN ws.
-Proof. Admitted.
+Proof.
+  intros St push ws s stk0 toks' H.
+  unfold alloc_token_set in H. change (vocab_size (trie_from ws)) with (lenN ws) in H.
+  set (toks := alloc_with_capacity (lenN ws) (lenN ws + 1)) in *.
+  assert (Hpre : get_pre toks (lenN ws) = true).
+  { unfold get_pre. subst toks. unfold alloc_with_capacity, nwords. cbn [words].
+    change (lenN (words (alloc (lenN ws + 1)))) with (nwords (alloc (lenN ws + 1))).
+    rewrite nwords_alloc. unfold div_ceil32. apply N.ltb_lt.
+    replace (lenN ws + 1 + 31) with (lenN ws + 1 * 32) by lia.
+    rewrite N.div_add by lia. lia. }
+  destruct (add_bias_correct St push ws s stk0 toks Hpre)
+    as (toks2 & Hab & Hv & Hn & Hlo & Hmid & Hhi).
+  rewrite Hab in H. inversion H; subst toks'.
+  assert (Hvs : vsize toks2 = lenN ws). { rewrite Hv. reflexivity. }
+  split; [|exact Hvs].
+  unfold no_excess. rewrite Hvs. intros i Hi.
+  destruct (N.eq_dec i (lenN ws)) as [E|E].
+  - subst i. exact Hmid.
+  - rewrite Hhi by lia. apply get_alloc_with_capacity.
+Qed.
+
+(* ---------- bit packing --------------------------------------------------- *)
+Lemma shiftr_lor_shiftl : forall a b n,
+  b < 2 ^ n -> N.shiftr (N.lor (N.shiftl a n) b) n = a.
+Proof.
+  intros a b n Hb. rewrite N.shiftr_lor, N.shiftr_shiftl_l by lia.
+  rewrite N.sub_diag, N.shiftl_0_r.
+  destruct (N.eq_dec b 0) as [E|E].
+  - subst b. rewrite N.shiftr_0_l. apply N.lor_0_r.
+  - rewrite N.shiftr_eq_0; [apply N.lor_0_r|]. apply N.log2_lt_pow2; lia.
+Qed.
+
+Lemma land_lor_shiftl : forall a b n,
+  b < 2 ^ n -> N.land (N.lor (N.shiftl a n) b) (N.ones n) = b.
+Proof.
+  intros a b n Hb. rewrite N.land_lor_distr_l, !N.land_ones.
+  rewrite N.shiftl_mul_pow2, N.mod_mul by (apply N.pow_nonzero; lia).
+  rewrite N.mod_small by exact Hb. apply N.lor_0_l.
+Qed.
 
 (*FIXED*) (* node packing into two u32 words round-trips under the asserted bounds *)
 Lemma pack_unpack : forall pb n,
   pb <= 24 -> node_packable pb n = true -> unpack_node pb (pack_node pb n) = n.
-Proof. Admitted.
+Proof.
+  intros pb [b tok sub par] _ Hp. unfold node_packable in Hp.
+  cbn [nbyte ntok npar nsub] in Hp.
+  apply andb_prop in Hp. destruct Hp as [Hp Hsub].
+  apply andb_prop in Hp. destruct Hp as [Hp Hparhi].
+  apply andb_prop in Hp. destruct Hp as [Hp Hparlo].
+  apply andb_prop in Hp. destruct Hp as [Hb Htok].
+  apply N.ltb_lt in Hsub. apply N.leb_le in Hparhi. apply N.leb_le in Hparlo.
+  apply N.ltb_lt in Hb.
+  unfold pack_node, unpack_node. cbn [nbyte ntok npar nsub].
+  change 255 with (N.ones 8).
+  assert (Hb8 : b < 2 ^ 8) by (change (2 ^ 8) with 256; exact Hb).
+  rewrite (shiftr_lor_shiftl _ b 8 Hb8), (land_lor_shiftl _ b 8 Hb8).
+  rewrite (N.lor_comm (par - 1)).
+  assert (Hpar1 : par - 1 < 2 ^ pb) by lia.
+  rewrite (shiftr_lor_shiftl _ (par - 1) pb Hpar1), (land_lor_shiftl _ (par - 1) pb Hpar1).
+  replace (par - 1 + 1) with par by lia.
+  destruct tok as [t|].
+  - apply N.ltb_lt in Htok. destruct (N.eqb_spec t NO_TOKEN) as [E|E]; [lia|reflexivity].
+  - rewrite N.eqb_refl. reflexivity.
+Qed.
